@@ -3,9 +3,10 @@
    (src/delta/lexer.rs, src/delta/lexer/tokens.rs); both were validated against
    the real lexers on millions of inputs and are re-validated on every run. *)
 From PV Require Import Base.Common Base.IR Base.Tok Model.LexAlpha Model.LexDelta.
-From PV Require Proofs.LexAlphaProofs Proofs.LexDeltaProofs.
+From PV Require Proofs.LexAlphaProofs Proofs.LexDeltaProofs Proofs.LexAgreeProofs.
 Module A := LexAlphaProofs.
 Module D := LexDeltaProofs.
+Module G := LexAgreeProofs.
 
 (* ---- first generation ------------------------------------------------------------ *)
 (* Spans: for EVERY source (LF, CRLF, bare CR, non-ASCII) every token's span is the
@@ -64,10 +65,65 @@ Proof. exact D.total. Qed.
 Theorem C14_delta_span_exact : forall src toks eln esol p,
   lex_result src = LexRun (Done toks eln esol p) ->
   D.spans_sorted 0 toks /\
-  Forall (fun t => (tend t <= lenN src)%N /\ bytes t = [] /\ D.tok_origin src t) toks /\
+  Forall (fun t => (tend t <= lenN src)%N /\ bytes t = [] /\ D.tok_origin dec_push src t) toks /\
   (D.has_bsnl src = false ->
      Forall (D.tok_line src) toks /\ eln = D.line_of src (lenN src) /\ esol = D.sol_of src (lenN src)).
 Proof. exact D.span_exact_delta. Qed.
+
+(* Decimal literals of the second generation: the mathematical value, or E140
+   from 2^128 on - unconditionally (the pinned commit wrapped or panicked: D4). *)
+Theorem C14_delta_decimal_value : forall x body,
+  in_range 49 57 x = true -> D.is_dec_body body = true -> (lenN (x :: body) <= MAX_SOURCE_LEN)%N ->
+  let M := D.dec_value (x - 48) body in
+  let n := lenN (x :: body) in
+  lex_delta (x :: body) =
+    [if (M <? two128)%N then mk_tok KNakedDecimal (Z.of_N M) None 0 n 1 0 else mk_tok KError E140 None 0 n 1 0].
+Proof. exact D.decimal_value_delta. Qed.
+
+Theorem C14_delta_no_overflow_panic : forall src, would_overflow_panic src = false.
+Proof. exact D.would_overflow_panic_never. Qed.
+
+Theorem C14_delta_pinned_refuted :
+  exists src, would_overflow_panic_pinned src = true.
+Proof. destruct D.decimal_value_delta_refuted as (x & body & H). exists (x :: body). tauto. Qed.
+
+(* The token buffer (shared with C15) is never overrun. *)
+Theorem C14_delta_token_push_in_bounds : forall src,
+  lex_delta src = [err_tok0 E103] \/
+  (D.lenT (lex_delta src) + num_end_tokens src <= token_capacity (lenN src))%N.
+Proof. exact D.token_push_in_bounds. Qed.
+
+(* ---- the two generations agree -------------------------------------------------------- *)
+(* keyword, boolean, type, suffix and escape tables are the same tables *)
+Theorem C14_classify_agree : forall w, LexDelta.lookup_keyword w = G.classify_spec w.
+Proof. exact G.classify_agree. Qed.
+
+Theorem C14_suffix_agree : forall s, LexAlpha.parse_integer_suffix s = LexDelta.parse_integer_suffix s.
+Proof. exact G.suffix_agree. Qed.
+
+(* every numeric lexeme (decimal, 0x, 0b, any suffix, valid or not) gets the same
+   kind, value, type and extent, outside the listed class K6 (more than 128
+   binary digits whose value still fits) *)
+Theorem C14_numeric_agree : forall f d w tail tailD i,
+  LexAlpha.is_dec d = true -> forallb LexAlpha.is_ident_cont w = true ->
+  D.ends_token tail = true -> D.ends_token tailD = true ->
+  G.known_bin_leading_zeros (d :: w) = false ->
+  exists k v ty,
+    LexAlpha.lex_step d (w ++ tail) = LexAlpha.StTok k v ty [] (1 + LexAlpha.len w) tail /\
+    srest (LexDelta.lex_step f d (w ++ tailD) i) = tailD /\
+    send (LexDelta.lex_step f d (w ++ tailD) i) = (i + 1 + lenN w)%N /\
+    act (LexDelta.lex_step f d (w ++ tailD) i) = G.payload_act (k, v, ty) i (i + 1 + lenN w)%N /\
+    (k = KError -> ty = None).
+Proof. exact G.numeric_agree. Qed.
+
+(* whole multi-line sources without quotes and carriage returns: identical token
+   lists (kind, value, type, span, line, column), `return` apart *)
+Theorem C14_ascii_agree_partial : forall src,
+  src <> [] -> forallb G.okS src = true -> G.bin_free src -> G.return_bang_free src ->
+  (lenN src + 2 <= 65536)%N ->
+  (D.count_err (lex_alpha src) <= error_capacity (lenN src))%N ->
+  map G.erase_return (lex_delta src) = map G.erase_return (lex_alpha src).
+Proof. exact G.ascii_agree_partial. Qed.
 
 Print Assumptions C14_alpha_span_exact.
 Print Assumptions C14_alpha_decimal_value.
@@ -77,3 +133,9 @@ Print Assumptions C14_alpha_whitespace_invariance.
 Print Assumptions C14_alpha_comment_invariance.
 Print Assumptions C14_delta_total.
 Print Assumptions C14_delta_span_exact.
+Print Assumptions C14_delta_decimal_value.
+Print Assumptions C14_delta_no_overflow_panic.
+Print Assumptions C14_delta_token_push_in_bounds.
+Print Assumptions C14_classify_agree.
+Print Assumptions C14_numeric_agree.
+Print Assumptions C14_ascii_agree_partial.
